@@ -472,7 +472,10 @@ def main():
                (6, "less", lambda m, x, c: m.less(x, c)), (6, "x < c", lambda m, x, c: x < c), (4, "c < x", lambda m, x, c: m.less(c, x)),
                (7, "less_equal", lambda m, x, c: m.less_equal(x, c)), (7, "x <= c", lambda m, x, c: x <= c),
                (8, "equal", lambda m, x, c: m.equal(x, c)), (8, "x == c", lambda m, x, c: x == c),
-               (9, "not_equal", lambda m, x, c: m.not_equal(x, c)), (9, "x != c", lambda m, x, c: x != c)]
+               (9, "not_equal", lambda m, x, c: m.not_equal(x, c)), (9, "x != c", lambda m, x, c: x != c),
+               (11, "logical_not", lambda m, x, c: m.logical_not(x)), (12, "isfinite", lambda m, x, c: m.isfinite(x)), (13, "isnan", lambda m, x, c: m.isnan(x)),
+               (13, "isinf", lambda m, x, c: m.isinf(x)), (13, "isposinf", lambda m, x, c: m.isposinf(x)), (13, "isneginf", lambda m, x, c: m.isneginf(x)),
+               (12, "isreal", lambda m, x, c: m.isreal(x)), (13, "iscomplex", lambda m, x, c: m.iscomplex(x))]
 
     def pc_point():
         k = rng.random()
